@@ -114,7 +114,8 @@ pub async fn run(args: &ShardArgs, rep: &mut Report) {
 			filters: (0..pickn(&mut rng, &[0, 0, 1, 1, 2, 3])).map(|_| gen_pattern(&mut rng, false)).collect(),
 			ignores: (0..pickn(&mut rng, &[0, 0, 1, 1, 2, 3])).map(|_| gen_pattern(&mut rng, true)).collect(),
 			exts: (0..pickn(&mut rng, &[0, 0, 0, 1, 2])).map(|_| (*rng.pick(EXTS)).to_string()).collect(),
-			whitelist: (0..pickn(&mut rng, &[0, 0, 0, 1])).map(|_| gen_rel(&mut rng)).collect(),
+			// none, one, or several explicitly watched files in no particular order
+			whitelist: (0..pickn(&mut rng, &[0, 0, 0, 1, 1, 3, 5])).map(|_| gen_rel(&mut rng)).collect(),
 			ignore_file: (0..pickn(&mut rng, &[0, 0, 0, 1, 2])).map(|_| gen_pattern(&mut rng, false)).collect(),
 		};
 		let igpath = origin.join(format!(".c11-ig-{}", ci % 4));
